@@ -1,19 +1,27 @@
 """C18 — random generation is unbiased, pluggable and fully covers generated secrets (DESIGN §3.18)."""
+import os
 import vcore
 from vcore import hexs
 
 ID = "C18"
 LEVEL = "proof"
+# theorems of Properties/C18Internal.lean (the internal generator and the dispatch layer, for every history of calls)
+_TI = ["inv_init", "inv_step", "inv_run", "chacha20_wf", "random_in_bounds", "random_pop_eq", "pool_words_once", "buf_eq", "buf_chacha20_spec", "erase_nonce_fresh", "random_refill_eq", "buf_ignores_pool", "close_resets", "close_then_buf_reseeds", "stir_requests_32", "stir_first_requests_16_32", "stir_entropy_failure_is_misuse", "stir_unseeded_when_getentropy_unavailable", "fork_is_misuse_not_restir", "random_no_fork_check_with_pool", "hrtime_value", "dispatch_buf_forwards", "dispatch_buf_zero", "dispatch_randombytes_no_limit", "dispatch_uniform_own", "dispatch_uniform_rejection", "dispatch_uniform_step", "dispatch_first_stir_twice", "dispatch_close_keeps_impl"]
 _T = ["uniformMin_eq", "uniform_lt", "uniform_first_accepted", "uniform_all_rejected", "uniform_exact", "drg_eq", "drgNonce_ascii",
       "scalar_random_first", "keygen_covers"]
 THEOREMS = vcore.theorems_in("SodiumModel/Properties/C18.lean", _T, "Sodium.C18")
 IMPORTS = ["SodiumModel.Properties.C18"] if THEOREMS else ["SodiumModel.Model.Random"]
+if os.path.exists(os.path.join(vcore.LEAN, "SodiumModel/Properties/C18Internal.lean")):
+    THEOREMS = THEOREMS + vcore.theorems_in("SodiumModel/Properties/C18Internal.lean", _TI, "Sodium.C18Internal")
+    IMPORTS = IMPORTS + ["SodiumModel.Properties.C18Internal"]
 RULE = ("scripted random source installed through randombytes_set_implementation; bounds {0,1,2,3, 2^k +- 1, 2^31 +- 1, 2^32-1, random} x draw scripts "
         "placed at the rejection threshold - 1 / threshold / threshold + 1 and long rejection runs; deterministic generator for every length 0..1100 and "
         "seeds, the 2^38 limit probed through the misuse handler; every generating API (all 27 *_keygen, box/sign/kx keypairs, secretstream init_push, "
         "box_seal, core ed25519/ristretto255 random points and scalars) run on a script: logged request sizes and outputs compared with the model, then "
         "re-run with each consumed byte perturbed (output must change) and with bytes after the consumed prefix perturbed (output must not change)")
 ASSUMPTIONS = ["the installed source does not supply its own `uniform` (as the property states)",
+               "rngint: RDRAND disabled through SODIUM_VERIF_CPU_DISABLE (its values cannot be scripted); the model covers the configured build "
+               "(HAVE_GETENTROPY, HAVE_GETPID, LP64 little endian)",
                "pwhash_str* salts are covered under C08; argon2_hash's raw-output pre-fill under C08/C20"]
 
 
@@ -103,3 +111,111 @@ def gen(ctx, tier, rng):
     for _ in range(30 if not full else 300):
         L.append("rng.gen scalar_random %s" % hexs(rb(rng, 32 * 6)))
     return L
+
+
+# ---------------------------------------------------------------- rngint: the REAL internal generator on a scripted outside world
+# The op needs the modified harness files (ops_c18.c with op_rngint, wrap_sys.c / wrap_sys.h with the getentropy / gettimeofday / getpid / open
+# shims) and four more --wrap flags.  Until they are merged into /verif/harness and vcore.WRAP_FLAGS, point VERIF_HARNESS_NEW at the directory
+# holding the modified copies: this stage then builds its own harness executable (vcore.build_hx with name=...) from /verif/harness with those
+# files substituted.  After the merge (files copied to /verif/harness, RNG_WRAP appended to vcore.WRAP_FLAGS) leave VERIF_HARNESS_NEW unset: the
+# standard harness is used.  RDRAND values cannot be scripted, so the op answers "unavailable" unless the CPU mask disables rdrand; the stage
+# runs it with mask "rdrand" and with ALL_OFF.
+RNG_WRAP = "-Wl,--wrap=getentropy,--wrap=gettimeofday,--wrap=getpid,--wrap=open"
+HARNESS_NEW = os.environ.get("VERIF_HARNESS_NEW")
+
+
+def rngint_lines(tier, rng):
+    full = tier == "thorough"
+    L = []
+    def ent_item(n=None):
+        n = rng.choice([16, 32, 32, 32, 40, 8, 0]) if n is None else n
+        return hexs(rb(rng, n)) if n else "00"
+    def time_item():
+        r = rng.random()
+        if r < 0.04:
+            return "!"
+        if r < 0.07:
+            return "0.0"
+        if r < 0.15:
+            return "%d.%d" % (rng.choice([18446744073709, 18446744073710, (1 << 64) - 1, 1 << 44]), rng.randrange(0, 1000000))
+        return "%d.%d" % (rng.randrange(0, 1 << 32), rng.randrange(0, 1000000))
+    calls_pool = ["buf:%d", "rnd", "stir", "close", "Buf:%d", "Rnd", "Stir", "Close", "Uni:%d", "Bytes:%d"]
+    sizes = [0, 1, 3, 4, 8, 31, 32, 33, 63, 64, 65, 127, 128, 129, 255, 256, 257, 511, 512, 513, 1000, 2048]
+    for it in range(400 if not full else 4000):
+        ncalls = rng.choice([1, 2, 3, 5, 8, 13, 30])
+        calls = []
+        for _ in range(ncalls):
+            c = rng.choice(calls_pool + ["rnd", "rnd", "buf:%d"])
+            if c.startswith("Uni"):
+                c = c % rng.choice([0, 1, 2, 3, 10, 1000003, (1 << 31) + 1, (1 << 32) - 1, rng.randrange(2, 1 << 32)])
+            elif "%d" in c:
+                c = c % rng.choice(sizes)
+            calls.append(c)
+        if it % 7 == 0:      # long runs of rnd: several pool refills (120 words per pool)
+            calls += ["rnd"] * rng.choice([119, 120, 121, 250])
+        nstir = 2 + sum(1 for c in calls if c in ("stir", "Stir", "close", "Close"))
+        mode = rng.random()
+        if mode < 0.1:       # getentropy unavailable at run time: the device fallback
+            ent = ",".join(["!"] * rng.choice([1, 2]))
+        elif mode < 0.2:     # the seed request fails at some point
+            k = rng.randrange(1, nstir + 2)
+            ent = ",".join([ent_item() for _ in range(k)] + ["!"])
+        elif mode < 0.25:
+            ent = "-"
+        else:
+            ent = ",".join(ent_item(16 if i == 0 else 32) if rng.random() < 0.8 else ent_item() for i in range(nstir + 1))
+        times = ",".join(time_item() for _ in range(rng.choice([nstir, nstir, 1, 2]))) if rng.random() > 0.03 else "-"
+        if rng.random() < 0.25:   # a fork somewhere: the scripted pid changes
+            pids = ",".join(str(100 if i < k else 101) for k in [rng.randrange(0, 12)] for i in range(k + 2))
+        else:
+            pids = rng.choice(["100", "0", "-5", "4194304"])
+        dev = "fail" if rng.random() < 0.15 else "ok"
+        L.append("rngint %s %s %s %s %s" % (ent, times, pids, dev, ",".join(calls)))
+    # directed: first use, 16 + 32 bytes requested; second stir 32; fork before / after the pool is filled; stir in the child
+    e3 = ",".join(hexs(rb(rng, n)) for n in (16, 32, 32, 32))
+    for calls in ["stir", "buf:64", "rnd", "rnd,rnd", "rnd,close,rnd", "buf:1,stir,buf:1", "Stir", "Stir,Stir", "Close", "close", "Uni:10", "Buf:0", "Bytes:0",
+                  "rnd," * 120 + "rnd", "buf:0,buf:0,buf:0"]:
+        L.append("rngint %s 5.7,6.1,6.2,6.3 100 ok %s" % (e3, calls))
+        L.append("rngint %s 5.7,6.1,6.2,6.3 100,101 ok %s" % (e3, calls))
+        L.append("rngint %s 5.7,6.1,6.2,6.3 100,100,101 ok %s" % (e3, calls))
+    L.append("rngint %s 5.7,6.1 100,100,101,101 ok rnd,rnd,rnd,stir,rnd" % e3)        # fork after the pool was filled: the child pops the parent's words unnoticed
+    L.append("rngint !,! 5.7,6.1 100 ok buf:32,rnd,close,buf:32")                      # getentropy unavailable: key never seeded (all-zero key, nonce = time)
+    return L
+
+
+def _rng_harness(ctx):
+    if not HARNESS_NEW:
+        return vcore.build_hx(ctx, "native", "plain")
+    srcs = [os.path.join(HARNESS_NEW, os.path.basename(f)) if os.path.exists(os.path.join(HARNESS_NEW, os.path.basename(f))) else f for f in vcore.hx_sources()]
+    return vcore.build_hx(ctx, "native", "plain", extra_sources=srcs, extra_flags=["-I" + HARNESS_NEW] + vcore.WRAP_FLAGS + [RNG_WRAP], name="rngint", wrap=False)
+
+
+def unavailable_ok(ctx, cfg, line):
+    return line.startswith("rngint ") and "rdrand" not in (cfg[1] or "")
+
+
+def extra(ctx, rng):
+    import sys
+    mod = sys.modules[__name__]
+    lines = rngint_lines(ctx.tier, rng)
+    for ln in lines:
+        vcore.note_case(ctx, ln)
+    model_out = vcore.run_model(ctx, lines)
+    bad = [l for l, m in zip(lines, model_out) if m in ("bad-op", "bad-args")][:3]
+    if bad:
+        raise vcore.BrokenCheck("rngint: the model driver rejects generated ops: %s" % bad)
+    exe = _rng_harness(ctx)
+    for mask in ("rdrand", vcore.ALL_OFF, ""):
+        cfg = ("native", mask, "plain")
+        impl_out, crashed = vcore.run_impl(ctx, exe, lines, mask)
+        if impl_out and impl_out[0] == "bad-op":
+            raise vcore.BrokenCheck("rngint: the harness has no such op (set VERIF_HARNESS_NEW or merge harness_new/ into /verif/harness)")
+        vcore.compare_streams(ctx, mod, lines, model_out, impl_out, cfg, crashed)
+        kinds = {}
+        for m in model_out:
+            k = "misuse" if " misuse ent=" in " " + m else "abort" if " abort ent=" in " " + m else "completed"
+            kinds[k] = kinds.get(k, 0) + 1
+        ctx.stats["rngint_outcomes"] = kinds
+        ctx.configs_run.append({"variant": "native", "mask": mask or "none", "flavour": "plain", "ops": len(lines), "stage": "rngint",
+                                "skipped_unavailable": sum(1 for o in impl_out if o == "unavailable")})
+        ctx.log("rngint: mask %s: %d histories compared, violations so far %d" % (mask or "none", len(lines), len(ctx.violations)))
